@@ -279,6 +279,7 @@ var trustsB = []trustB{
 	{"exact", []string{"https://partner.example.net"}},
 	{"wildcard", []string{"https://*.example.com"}},
 	{"exact+wildcard", []string{"https://partner.example.net", "https://*.example.com"}},
+	{"none:no-config", nil},
 	{"exact:upper", []string{"HTTPS://PARTNER.EXAMPLE.NET"}},
 	{"exact:trailing-slash", []string{"https://partner.example.net/"}},
 	{"exact:blanks", []string{" https://partner.example.net "}},
@@ -335,12 +336,14 @@ func nearOrigins(entries []string) []hv {
 		if j := strings.LastIndex(rest, ":"); j != -1 {
 			host, port = rest[:j], rest[j:]
 		}
-		bases := []struct{ pfx, h string }{{"entry", host}}
+		// class names follow the fixed alphabet (exact-other-port, wildcard-sub-other-scheme, ...), so that a
+		// defect seen with a canonical and with a respelt configuration shares one signature stem
+		bases := []struct{ pfx, h string }{{"exact", host}}
 		if wild {
-			bases = []struct{ pfx, h string }{{"entry-sub", "a." + host}, {"entry-deep-sub", "a.b." + host}}
+			bases = []struct{ pfx, h string }{{"wildcard-sub", "a." + host}, {"wildcard-deep-sub", "a.b." + host}}
 			for _, lp := range []struct{ c, p string }{{"apex", ""}, {"empty-label", "."}, {"empty-label-deep", "a.."}, {"lookalike-prefix", "evil"},
 				{"empty-label-lookalike", ".evil"}, {"lookalike-prefix-sub", "a.evil"}} {
-				add("entry-"+lp.c, scheme+"://"+lp.p+host+port)
+				add(lp.c, scheme+"://"+lp.p+host+port)
 			}
 		}
 		for _, b := range bases {
@@ -403,10 +406,14 @@ func runB(r *core.Run, col *collector, samples *[]any) map[string]any {
 		reached := false
 		lastErr := ""
 		app := fiber.New(fiber.Config{TrustProxy: true, TrustProxyConfig: fiber.TrustProxyConfig{Proxies: []string{"10.0.0.1"}}})
-		app.Use(csrf.New(csrf.Config{TrustedOrigins: tr.Origins, ErrorHandler: func(_ fiber.Ctx, err error) error {
-			lastErr = err.Error()
-			return fiber.ErrForbidden
-		}}))
+		if tr.Name == "none:no-config" {
+			app.Use(csrf.New()) // no Config at all: ConfigDefault as it stands (default error handler: lastErr stays empty)
+		} else {
+			app.Use(csrf.New(csrf.Config{TrustedOrigins: tr.Origins, ErrorHandler: func(_ fiber.Ctx, err error) error {
+				lastErr = err.Error()
+				return fiber.ErrForbidden
+			}}))
+		}
 		app.All("/", func(c fiber.Ctx) error {
 			reached = true
 			if c.Get("X-Op") == "del" {
@@ -417,13 +424,20 @@ func runB(r *core.Run, col *collector, samples *[]any) map[string]any {
 			return c.SendString("ok")
 		})
 		h := app.Handler()
-		var fctx fasthttp.RequestCtx
+		// B judges origins, not buffer reuse (that is the request-layout family of harness A): every request
+		// gets a RequestCtx of its own, so that a token store keeping views of request buffers cannot
+		// invalidate the prepared tokens halfway through the product
 		peer := fx.TCP(mode.Peer, 5555)
+		fctx := &fasthttp.RequestCtx{}
+		call := func(req *fasthttp.Request) {
+			fctx = &fasthttp.RequestCtx{}
+			fx.CallInto(fctx, h, req, peer, mode.TLS)
+		}
 		// issue obtains a valid token + cookie through a safe request
 		issue := func() string {
 			greq := fx.Req("GET", "/")
 			greq.Header.SetHost(host)
-			fx.CallInto(&fctx, h, greq, peer, mode.TLS)
+			call(greq)
 			var ck fasthttp.Cookie
 			ck.SetKey("csrf_")
 			if !fctx.Response.Header.Cookie(&ck) || len(ck.Value()) == 0 {
@@ -435,7 +449,7 @@ func runB(r *core.Run, col *collector, samples *[]any) map[string]any {
 		{
 			dreq := fx.Req("GET", "/", "Cookie", "csrf_="+tokDel, "X-Op", "del")
 			dreq.Header.SetHost(host)
-			fx.CallInto(&fctx, h, dreq, peer, mode.TLS)
+			call(dreq)
 		}
 		fake := []byte(tok) // never issued, same length and shape as an issued token
 		for i := range fake {
@@ -453,9 +467,9 @@ func runB(r *core.Run, col *collector, samples *[]any) map[string]any {
 		origins := append(append([]hv(nil), baseOrigins...), near...)
 		nearRefs := make([]hv, 0, 2*len(near))
 		for _, n := range near {
-			nearRefs = append(nearRefs, hv{n.Class + "-bare", n.Val})
+			nearRefs = append(nearRefs, hv{n.Class, n.Val}) // bare
 			if !strings.ContainsAny(n.Val[8:], "/?#") {
-				nearRefs = append(nearRefs, hv{n.Class + "-with-path", n.Val + "/page?x=1"})
+				nearRefs = append(nearRefs, hv{n.Class, n.Val + "/page?x=1"}) // with a path
 			}
 		}
 		allReferers := append(append([]hv(nil), baseReferers...), nearRefs...)
@@ -500,7 +514,7 @@ func runB(r *core.Run, col *collector, samples *[]any) map[string]any {
 				req.Header.Set("Referer", rval)
 			}
 			reached, lastErr = false, ""
-			fx.CallInto(&fctx, h, req, peer, mode.TLS)
+			call(req)
 		}
 		seenO := map[string]bool{}
 		for oi, ov := range origins {
